@@ -172,13 +172,16 @@ CLAIMS = {
         "text": "SessionTask::handle_frame executed WHOLE over the in-memory transport (MAX_ADU_LENGTH=13, hook H3), one fixed "
                 "function code per query, EVERY unit id 0..255 against a one-unit map: a valid write, a malformed request, an "
                 "unsupported function and an empty frame are answered iff addressed to the configured unit and nothing is written "
-                "otherwise; on RTU a broadcast read is ignored and a broadcast write reaches every unit of a two-unit map exactly "
-                "once with nothing transmitted.",
+                "otherwise; on RTU a broadcast read (valid or malformed) is ignored and nothing is transmitted. "
+                "The broadcast WRITE fan-out (applied exactly once to every unit of a two-unit map, never answered) is a "
+                "thorough-tier query.",
         "note": "The glue harnesses construct the Broadcast destination themselves: that the RTU parser maps address 0 to Broadcast "
                 "is NOT decided (the receive-side parser harnesses are intractable, see C06). Function codes are fixed per query "
                 "(write single register/coil, read holding registers, 0x2B as unsupported representative; full tables in C01). "
-                "Each glue query needs 10-36 GB and 5-10 minutes; they run at most 4 at a time. Short frames (hook H3); pty "
-                "sessions outside.",
+                "Each glue query needs 10-36 GB and 5-16 minutes; they run at most 4 at a time, so the quick check takes ~16 min. "
+                "NOT YET CONFIRMED: the broadcast-write fan-out query has not completed in any run so far (out of memory at 36 GB, "
+                "then 'CBMC failed' after 22 min, then again after slimming); it is therefore thorough-only and the quick verdict "
+                "says nothing about fan-out to every unit. Short frames (hook H3); pty sessions outside.",
         "design": "DESIGN.md 5.17",
     },
     "C18": {
@@ -190,15 +193,6 @@ CLAIMS = {
         "note": "NOT decided: entry points that need a live Runtime (channel creation, block_on), completion-callback "
                 "exactly-once through sfio_promise, queue-full/shutdown conditions, client state conversions.",
         "design": "DESIGN.md 5.18",
-    },
-    "C19": {
-        "text": "The database_* functions on a real Database (HashMap with fixed SipHash keys): every script of 3 operations "
-                "over {add, update, delete, get} x four point types x two symbolic indices against a reference Option per "
-                "(type, index); then RequestHandlerWrapper::read_*: stored value, or exception 02 for absent points; one map "
-                "per point type.",
-        "note": "NOT decided: atomicity of transactions against concurrent client reads (thread schedules; Kani is "
-                "sequential). RandomState::new stubbed to fixed keys (getrandom syscall).",
-        "design": "DESIGN.md 5.19",
     },
     "C20": {
         "text": "Every C01-C06 kernel and glue query takes a SYMBOLIC DecodeLevel (all 36) and is compared with a "
@@ -216,12 +210,17 @@ for _c in CLAIMS.values():
     _c["note"] = _c["note"] + COMMON_NOTE
 
 NOT_APPLICABLE = {
+    "C19": "tried and intractable: the map semantics need a real std HashMap (hashbrown RawTable + SipHash); four formulations "
+           "(2-3 operations, symbolic and concrete indices, unwind 4/5/6) either fail hashbrown's unwinding assertion or time out "
+           "at 30 min without a result (harness kept unregistered in harness/ffi/ffi_server.rs); the atomicity clause is a "
+           "thread-schedule property and Kani is sequential",
     "C13": "every clause is about the tokio task's state path (TcpChannelTask::run_inner/try_connect_and_run, sockets, "
            "timers, listener awaits); Kani 0.68 can neither compile (ICE on thread-locals reached by select!/recv/time) "
            "nor execute it (no runtime) and there is no synchronous kernel that carries the property",
-    "C15": "the only synchronous kernel (SessionTracker over BTreeMap<u128, mpsc::Sender>) did not finish within 30 min per "
-           "query (BTreeMap node handling + tokio channel internals); isolation between sessions and shutdown are tokio-task "
-           "properties; a claim will be added only if a tractable harness is found",
+    "C15": "tried and intractable: the only synchronous kernel (SessionTracker over BTreeMap<u128, mpsc::Sender>) did not finish "
+           "within 30 min per query and a 2-connection variant ran out of memory (BTreeMap node handling + tokio channel "
+           "internals; harness kept unregistered in harness/rodbus/tcp_server.rs); isolation between sessions and shutdown are "
+           "tokio-task properties that Kani can neither compile nor execute",
 }
 
 ALL = [f"C{n:02d}" for n in range(1, 21)]
